@@ -61,6 +61,38 @@ def l_consume(F, R):
            "(leniency L9); the strict decoder's exact-fill test (H-exactfill) covers them")
 
 
+# the reads whose bytes the decoder charges to the frame's budget *before* reading them on today's tree (confirmed by reading):
+# the packet identifier of a QoS 1/2 PUBLISH.  A frame whose remaining length ends before the identifier is then refused with
+# InvalidRemainingLength by every front-end; charged afterwards, the stream front-ends would first read two bytes of whatever follows.
+PRECHARGED = {
+    "v3::publish::Publish::decode_async": "common::utils::read_u16",
+    "v5::publish::Publish::decode_async": "common::utils::read_u16",
+}
+
+
+def l_precharge(F, R):
+    """In the PUBLISH decoders the packet identifier is charged to the remaining length before it is read: at each read_u16 the
+    budget local already equals header.remaining_len minus (bytes consumed so far + 2), on every path that reaches it."""
+    n = 0
+    for fid, prim in sorted(PRECHARGED.items()):
+        if fid not in F.fns:
+            R.fail("L-precharge", "%s/anchor-lost" % fid, "decoder %s not found" % fid)
+            continue
+        try:
+            it = summarise_decoder(F, fid, [Opaque("reader"), PathVal(("header",))])
+        except Unsupported as e:
+            R.fail("L-precharge", "%s/unsupported" % fid, "L-unsupported: cannot summarise %s: %s" % (fid, e), where=fid)
+            continue
+        evs = [c for c in it.charges if c[0] == prim]
+        n += len(evs)
+        bad = [c for c in evs if c[2] != "pre"]
+        R.check(evs and not bad, "L-precharge", "%s/%s" % (fid, prim.rsplit("::", 1)[1]),
+                "%s: %d of its %d %s read(s) happen before the remaining length was charged for them (status %s): a frame that ends before "
+                "the packet identifier is no longer refused with InvalidRemainingLength before the transport is read" % (
+                    fid, len(bad), len(evs), prim.rsplit("::", 1)[1], sorted({c[2] for c in bad}) or "no such read"), where=fid)
+    R.floor("L-precharge", "pre-charged reads", n, 2)
+
+
 # ---- checked_sub discipline (H-valid part) ------------------------------------------------------------------------
 
 def h_checked_sub(F, R):
